@@ -558,6 +558,18 @@ impl TransactionManager {
         self.lock_manager.release(tx_id);
     }
 
+    /// Returns an open transaction that has uncommitted changes in `table`, if there is one.
+    ///
+    /// Such a transaction still holds undo entries (and row locks) that name the table.
+    #[must_use]
+    #[instrument(skip(self), fields(table = %table))]
+    pub fn open_transaction_on_table(&self, table: &str) -> Option<u64> {
+        self.transactions
+            .iter()
+            .find(|entry| entry.value().affected_tables.contains(table))
+            .map(|entry| *entry.key())
+    }
+
     /// Get number of active transactions.
     #[must_use]
     #[instrument(skip(self))]
